@@ -510,8 +510,12 @@ def judge(ctx, stream, descr, name, params, N, F, got, rep, valid=True, site=Non
 
 def run_cases(ctx, cases):
     """cases: list of (stream, descr, name, params, N, F, thunk, key, nontrivial)"""
-    replies = ctx.model.batch([model_request(c[2], c[4], c[5], c[3]) for c in cases])
-    for case, rep in zip(cases, replies):
+    def answered(cases, size=200):
+        # chunk by chunk: the replies of a chunk (whole transformed formulas) are dropped before the next one is asked for
+        for k in range(0, len(cases), size):
+            part = cases[k:k + size]
+            yield from zip(part, ctx.model.batch([model_request(c[2], c[4], c[5], c[3]) for c in part]))
+    for case, rep in answered(cases):
         stream, descr, name, params, N, F, thunk, key, nontrivial = case[:9]
         ctx.count(stream, key, nontrivial, sample=descr)
         got = observe(thunk, None)
